@@ -746,6 +746,7 @@ class BaseWorkflow(object, metaclass=abc.ABCMeta):
                 self.task_list,
             )
         )
+        finished_any = False
         for task in working_and_zero_task_set:
             # check FINISH condition by each dependency
             # SF: if input task is working
@@ -772,6 +773,7 @@ class BaseWorkflow(object, metaclass=abc.ABCMeta):
                         finished = False
                         break
             if finished:
+                finished_any = True
                 task.state = BaseTaskState.FINISHED
                 task.remaining_work_amount = 0.0
 
@@ -802,6 +804,12 @@ class BaseWorkflow(object, metaclass=abc.ABCMeta):
                             facility.assigned_task_list.remove(task)
 
                     task.allocated_facility_list = []
+
+        if finished_any:
+            # A task that has just finished can satisfy the FF/SF condition of a task
+            # visited earlier in the (unordered) set: repeat until nothing changes, so
+            # that the result does not depend on the iteration order of the set.
+            self.__check_finished(time, error_tol=error_tol)
 
     def __set_est_eft_data(self, time: int):
         input_task_set = set()
